@@ -117,6 +117,13 @@ func (rc *RunCtx) Note(cr *CheckRun) {
 	rc.Tracef("Check(name=%q %v clock=%v) -> verdict=%s stop=%s invocations=%d sim=%v", cr.Name, cr.Flags, cr.Clock, cr.Verdict, cr.W.StopWhy, len(cr.W.Invs), cr.SimElapsed)
 }
 
+// emergency, when set, writes the result of the current run with one more violation and ends the worker process cleanly
+// (the driver starts a fresh worker for the remaining indices). Used when nothing can safely run on, e.g. after a deadlock.
+var emergency func(v Violation)
+var curRC *RunCtx
+var curIdx int
+var curProp string
+
 // curTier: the thorough tier also samples larger bounds (longer programs, more goroutines and operations).
 var curTier string
 
@@ -134,6 +141,7 @@ func runOne(spec *Spec, idx int, tape *Tape) (res Result) {
 	defer os.RemoveAll(dir)
 	rc := &RunCtx{T: tape, Tier: spec.Tier, Dir: dir, Stats: map[string]int{}, Verbose: spec.Verbose}
 	curTier = spec.Tier
+	curRC, curIdx, curProp = rc, idx, spec.Property
 	func() {
 		defer func() {
 			if r := recover(); r != nil {
